@@ -43,6 +43,8 @@ type Server struct {
 	userCommandHandler   UserCommandHandler
 	commandExecutors     Executors
 	commandMutex         sync.Mutex
+	requirePassAuth      auth.Authenticator
+	requirePassAuthPass  string
 }
 
 // NewServer returns a new server instance.
@@ -61,6 +63,8 @@ func NewServer() *Server {
 		userCommandHandler:   nil,
 		commandExecutors:     Executors{},
 		commandMutex:         sync.Mutex{},
+		requirePassAuth:      nil,
+		requirePassAuthPass:  "",
 	}
 	server.SetPort(DefaultPort)
 	server.registerCoreExecutors()
@@ -93,9 +97,18 @@ func (server *Server) RegisterExexutor(cmd string, executor Executor) {
 // Start starts the server.
 func (server *Server) Start() error {
 	password, requirePass := server.ConfigRequirePass()
+	// The authenticator which a former Start() registered for the password is removed when the
+	// password has been changed or removed since, otherwise every authenticator would have to
+	// accept the connection and nobody could authenticate with the new password.
+	if server.requirePassAuth != nil && (!requirePass || server.requirePassAuthPass != password) {
+		server.RemoveAuthenticator(server.requirePassAuth)
+		server.requirePassAuth = nil
+	}
 	if requirePass {
 		if !server.HasClearTextPasswordAuthenticator("", password) {
-			server.AddAuthenticator(auth.NewClearTextPasswordAuthenticatorWith("", password))
+			server.requirePassAuth = auth.NewClearTextPasswordAuthenticatorWith("", password)
+			server.requirePassAuthPass = password
+			server.AddAuthenticator(server.requirePassAuth)
 		}
 	}
 
